@@ -112,6 +112,25 @@ class P(framework.Prop):
             d = wire.val(rng.choice([gen.rand_doc(rng, 3), {"a": rng.choice([1, "x", None, [1, 2], {"b": 2}, True]), "b": rng.choice([2, "y", [3, None], None, 0.5]), "c": rng.choice(["s", 3, None])}]))
             self.ttrials.append((kind, X, Y, d, comp))
             out.append("search %s %s" % (wire.s(comp), d))
+        # a part without a result (a runtime error) leaves the whole without one: predicates, members and operands that fail on some element only
+        hetero = [[1, "abc", "de", [1, 2, 3], {"a": 1}], ["abc", 1], [[1], "x", None], [None, None], [{"a": "s"}, {"a": 1}, {}], ["a", "b"], [1, 2], [], [[], {}, ""]]
+        preds = ["length(@) > `2`", "abs(@) > `0`", "starts_with(@, 'a')", "sort(@)", "keys(@)", "max(@) == `1`", "join(',', @) == 'x'", "nosuch(@)", "length(a) == `1`",
+                 "abs(a)", "ends_with(@, `1`)", "contains(@, 'a')", "to_number(@) > `0`", "type(@) == 'string' && length(@) > `2`", "type(@) != 'number' || abs(@) > `0`"]
+        shapes = ["[?%s]", "a[?%s]", "[?%s].x", "[?%s] | [0]", "[?!(%s)]", "[?(%s) || `true`]", "[?`true` || (%s)]", "[?`false` && (%s)]", "[?(%s) && `true`]", "[*].[%s]",
+                  "[*].{k: %s}", "[].(%s)", "[?@ != `null`] | [?%s]", "[::-1][?%s]", "[0:2][?%s]", "*[?%s]", "[?%s][?%s]"]
+        for h in hetero:
+            for pr in preds:
+                for sh in (shapes if tier != "quick" else rng.sample(shapes, 6)):
+                    e = sh % ((pr,) * sh.count("%s"))
+                    doc = {"a": h} if e.startswith("a[") else ({"p": h, "q": h[::-1]} if e.startswith("*") else h)
+                    out.append("search %s %s" % (wire.s(e), wire.val(doc)))
+        # multi-select hashes with a repeated key: the record of the members' results in order (the last one stays), every member evaluated
+        for ks in [("a", "a"), ("a", "b", "a"), ("a", '"a"'), ('"a"', "a", "b"), ("k", "k", "k")]:
+            for vs in [("foo", "bar"), ("bar", "foo"), ("`1`", "nosuch(@)"), ("nosuch(@)", "`1`"), ("abs(foo)", "bar"), ("foo", "abs(bar)"), ("missing", "foo"), ("foo", "missing")]:
+                e = "{" + ", ".join("%s: %s" % (k, vs[i % len(vs)]) for i, k in enumerate(ks)) + "}"
+                for doc in [{"foo": 1, "bar": [2, 3]}, {"foo": "s", "bar": None}, None]:
+                    out.append("search %s %s" % (wire.s(e), wire.val(doc)))
+                    out.append("search %s %s" % (wire.s("[" + e + "][0]"), wire.val(doc)))
         consts = ["`true`", "`false`", "`null`", "`[]`", "`{}`", "`\"\"`", "`0`", "`1`", "''", "'x'", "`[0]`", "@", "a", "missing"]
         cdocs = [wire.val(v) for v in [{"a": []}, {"a": 0}, {"a": "x"}, {"a": None}, {"a": False}, {"a": True}, {"a": {}}, None, [], [1]]]
         for X in consts:
